@@ -9,7 +9,8 @@ import sys
 import time
 
 VERIF = os.path.dirname(os.path.dirname(os.path.abspath(__file__)))
-ENV = dict(os.environ, PYTHONPATH="/repo/src")
+# CHMPY_REPO may name a scratch worktree (parallel evaluation); the default is /repo itself
+REPO = os.environ.get("CHMPY_REPO", "/repo")
 
 
 def sh(cmd, **kw):
@@ -17,7 +18,7 @@ def sh(cmd, **kw):
 
 
 def demo(path):
-    r = sh(f"cd /tmp && PYTHONPATH=/repo/src timeout 900 /venv/bin/python {path}")
+    r = sh(f"cd /tmp && PYTHONPATH={REPO}/src timeout 900 /venv/bin/python {path}")
     line = next((l for l in (r.stdout or "").splitlines() if l.startswith(("VIOLATED", "HOLDS"))), (r.stdout + r.stderr)[-300:])
     return r.returncode, line[:400]
 
@@ -27,17 +28,17 @@ def main():
     also = []
     if "--also" in sys.argv:
         also = sys.argv[sys.argv.index("--also") + 1].split(",")
-    if sh("git -C /repo status --porcelain --untracked-files=no").stdout.strip():
-        print("REFUSED: /repo has uncommitted changes")
+    if sh(f"git -C {REPO} status --porcelain --untracked-files=no").stdout.strip():
+        print(f"REFUSED: {REPO} has uncommitted changes")
         return 2
     res = {"property": pid, "patch": os.path.basename(patch), "time": time.strftime("%Y-%m-%dT%H:%M:%S")}
     res["demo_clean"] = demo(demo_py)
-    ap = sh(f"git -C /repo apply {patch}")
+    ap = sh(f"git -C {REPO} apply {patch}")
     if ap.returncode != 0:
         print("REFUSED: patch does not apply:", ap.stderr[-300:])
         return 2
     try:
-        b = sh(f"bash {VERIF}/harness/baseline.sh")
+        b = sh(f"bash {VERIF}/harness/baseline.sh {REPO}")
         res["baseline"] = (b.stdout or "").strip().splitlines()[-1] if b.stdout else b.stderr[-200:]
         res["baseline_ok"] = b.returncode == 0
         res["demo_patched"] = demo(demo_py)
@@ -59,12 +60,14 @@ def main():
                     except OSError:
                         pass
     finally:
-        sh("git -C /repo checkout -- .")
+        sh(f"git -C {REPO} checkout -- .")
     res["valid_seed"] = bool(res["baseline_ok"] and res["demo_clean"][0] == 0 and res["demo_patched"][0] == 1)
     res["caught"] = res["checks"].get(pid, {}).get("exit") == 1
     os.makedirs(outdir, exist_ok=True)
-    shutil.copy(patch, os.path.join(outdir, "patch.diff"))
-    shutil.copy(demo_py, os.path.join(outdir, "demonstration.py"))
+    for src, name in ((patch, "patch.diff"), (demo_py, "demonstration.py")):
+        dst = os.path.join(outdir, name)
+        if os.path.abspath(src) != os.path.abspath(dst):
+            shutil.copy(src, dst)
     print(json.dumps(res, indent=1))
     json.dump(res, open(os.path.join(outdir, "eval.json"), "w"), indent=1)
     return 0
